@@ -299,7 +299,7 @@ Definition jw_violates (c : jw_case) : bool :=
   | None => match jw_got c with Ok (d, _) => str_eqb d [] | Err _ => false end
   end.
 (** message context through the envelope: the model's wrap_c / unwrap_c against the observed contexts *)
-Record ctx_case := CtxC { x_in : N; x_delivered : N; x_wrapped : N; x_unwrapped : N }.
+Record ctx_case := CtxC { x_in : N; x_delivered : N; x_wrapped : N; x_unwrapped : N; x_copy : N; x_orig_after : N }.
 Definition ctx_mismatch (c : ctx_case) : bool :=
   let m0 := Msg [] None None in
   match wrap_c (fun _ => Some []) [85]%N [116]%N (m0, x_in c) with
@@ -308,7 +308,10 @@ Definition ctx_mismatch (c : ctx_case) : bool :=
             && match unwrap_c (fun _ => Some (env_of [116]%N m0)) (fst w, x_delivered c) with
                | Ok (_, (_, cu)) => N.eqb cu (x_unwrapped c)
                | Err _ => false
-               end)
+               end
+            (* Copy() of the message: no context on the copy, the original keeps its own *)
+            && N.eqb (snd (copy_c (set_context (m0, 0%N) (x_in c)))) (x_copy c)
+            && N.eqb (snd (set_context (m0, 0%N) (x_in c))) (x_orig_after c))
   | Err _ => true
   end.
 Definition ctx_mismatches (cs : list ctx_case) := positions (map ctx_mismatch cs).
